@@ -153,6 +153,16 @@ example : (hardPass 1000 (fun h => if h = 1000 then some 5 else none) genesis
 
 /-! ### (d) honest wins -/
 
+/-- the mechanism of F12 in the model, for every network and state: as soon as
+phase 1 of `detectBadPeers` finds anyone, exactly those peers are returned and
+no served filter is checked against the block -/
+theorem C03_detect_early_return (net : Net) (s : St) (hs : List (Peer × Msg)) (h i : Nat)
+    (hne : (phase1 (filtersAt s net h) hs i).isEmpty = false) :
+    detect net s hs h i = .ok (phase1 (filtersAt s net h) hs i) := by
+  unfold detect
+  simp only [hne, Bool.not_false, ↓reduceIte]
+
+
 /-- the round as the property sees it -/
 def roundOf (s : St) (net : Net) (truth : Nat → FHash) : Round :=
   { peers := net.peers.filter (live s), resps := net.resps, served := net.served, verify := net.verify,
